@@ -14,7 +14,7 @@ package main
 // Applying one committed entry. wf* is the representation invariant of
 // internal/ircserver; it holds between entries.
 //@ func FSM.applyRobustMessage
-//@   requires state: fsm != nil && msg != nil && wfMid(i) && wfAuth(i) && wfLogin(i) && wfAlive(i)
+//@   requires state: fsm != nil && msg != nil && wfMid(i) && wfAuth(i) && wfLogin(i) && wfAlive(i) && wfPrefix(i)
 //@   requires gate-session: (msg.Type == robust.IRCFromClient || msg.Type == robust.DeleteSession) ==> msg.Session.Reply == 0
 //@   requires gate-create: msg.Type == robust.CreateSession ==> len(msg.Data) >= 8 && msg.Id.Reply == 0 && (forall x robust.Id :: x in i.sessions ==> x.Id < msg.Id.Id)
 //@   ensures base: wfBase(i)
@@ -26,6 +26,7 @@ package main
 //@   ensures auth: wfAuth(i)
 //@   ensures login: wfLogin(i)
 //@   ensures alive: wfAlive(i)
+//@   ensures prefix: wfPrefix(i)
 // C17: entries arrive in id order and name sessions created earlier; the server's notion of "seen"
 // (lastProcessed, session ids) never runs ahead of the entry just applied.
 //@   requires gate-order: seenUpTo(i, msg.Id.Id) && msg.Session.Id <= msg.Id.Id
